@@ -299,6 +299,12 @@ func (hs *clientHandshakeStateGM) doFullHandshake() error {
 	}
 
 	skx, ok := msg.(*serverKeyExchangeMsg)
+	if !ok {
+		// GM/T 0024 的密钥交换方式都要求服务端发送 ServerKeyExchange，
+		// 其中的签名是服务端持有签名私钥的唯一证明，不允许省略
+		c.sendAlert(alertUnexpectedMessage)
+		return unexpectedMessageError(skx, msg)
+	}
 	if ok {
 		hs.finishedHash.Write(skx.marshal())
 		err = keyAgreement.processServerKeyExchange(c.config, hs.hello, hs.serverHello, c.peerCertificates[0], skx)
